@@ -28,3 +28,11 @@ def d12a_unclosed_two_run():
         if present == [3, 4] and ('-', 5) not in ev:
             bad = True
     return bad
+
+
+@script
+def d16_to_directed_one_orientation():
+    g = dn.DynGraph()
+    g.add_interaction(0, 3, 0)
+    h = g.to_directed()
+    return h.has_interaction(0, 3, 0) != h.has_interaction(3, 0, 0)
